@@ -262,7 +262,7 @@ class JSONSerialization(Serialization):
     def selector_schema(cls, p, safe=False):
         try:
             allowed_types = [{'type': cls.json_schema_literal_types[type(obj)]}
-                             for obj in p.objects.values()]
+                             for obj in p.objects]
             schema = {'anyOf': allowed_types}
             schema['enum'] = p.objects
             return schema
